@@ -220,6 +220,10 @@ KERNELS.append(dict(_ML, name="geo_ctor_b_range", cls="GeoData3D", function="Geo
 KERNELS.append(dict(_ML, name="dp_key", cls="DetPairData", function="operator()", const_method=True, mode="function", index_tuple=2,
     params=[("num_detectors", "Int"), ("minB", "Int → Int"), ("a", "Int"), ("b", "Int")],
     bind={}, bind_fun={"get_min_index": "minB", "get_max_index": "maxB"}, outputs=["$return"], ret="Int"))
+for _n in ("fan_key", "geo_key", "dp_key"):
+    # the non-const overloads `float& operator()(…)` (the ones every write goes through) have their own bodies
+    _c = [k for k in KERNELS if k["name"] == _n][0]
+    KERNELS.append(dict(_c, name=_n + "_nc", const_method=False))
 KERNELS.append(dict(_ML, name="dp_is_in_data", cls="DetPairData", function="is_in_data", mode="function",
     params=[("num_detectors", "Int"), ("minB", "Int → Int"), ("maxB", "Int → Int"), ("a", "Int"), ("b", "Int")],
     bind={}, bind_fun={"get_min_index": "minB", "get_max_index": "maxB"}, outputs=["$return"], ret="Bool"))
